@@ -209,6 +209,12 @@ def replace_and_compare(ctx, chart, cd, n, case, lines, impl, metas):
                 print("PLOT-CHANGED\n", inv[a].decode(), "\n", inv[b].decode())
     lines.append(line); impl.append("%s %s" % (Pop.enc(post), ",".join(map(str, order)) or "!")); metas.append(case)
     ctx.case(key=line)
+    npre = sum(len(r) for _, r in pre)
+    if n < npre and any(not r for _, r in post):
+        ctx.fail("replace-data-left-plot-without-series", f"replace_data with {n} series on a chart holding {npre} in {len(pre)} plots left a plot without any series: "
+                 f"{[len(r) for _, r in post]} (plots left without series are to be removed)", case)
+    if len([1 for _, r in post for _ in r]) != n and npre:
+        ctx.fail("replace-data-series-count", f"replace_data with {n} series left {len([1 for _, r in post for _ in r])} c:ser elements", case)
     ctx.count("replace-population-%s" % ("grow" if sum(len(r) for _, r in pre) < n else "shrink" if sum(len(r) for _, r in pre) > n else "same"))
     if len(pre) > 1:
         ctx.count("replace-population-multi-plot")
